@@ -1,6 +1,8 @@
 # throw-away feasibility prototype: concrete-control / symbolic-data interpreter for clang-14 textual IR
 import re, sys, time, z3
 
+class Thrown(Exception):
+    def __init__(s,ty,obj=None): s.ty=ty; s.obj=obj
 class BackEdge(Exception):
     def __init__(s,env): s.env=env
 class Ptr:
@@ -142,6 +144,8 @@ class Module:
                     l=l.strip()
                     # strip metadata
                     l=re.sub(r',\s*![\w.]+ !\d+','',l)
+                    if ' = landingpad ' in l:
+                        while re.match(r'\s*(cleanup|catch|filter)\b',lines[i]): l+=' '+lines[i].strip(); i+=1
                     if re.match(r'(%[\w.$-]+ = )?invoke ',l):
                         l+=' '+lines[i].strip(); i+=1
                     if l.startswith('switch'):
@@ -239,6 +243,8 @@ class Interp:
         fk['taken'].append(ch); fk['pc'].append(c==ch); return ch
     def glob(s,name):
         if name in s.gl: return s.gl[name]
+        if name not in s.mod.globals or ' external ' in (' '+s.mod.globals[name]+' ') and 'constant' in s.mod.globals[name] and name.startswith('_ZTI'):
+            p=Ptr('@'+name,0); s.mem.objs.setdefault('@'+name,{'size':16,'bytes':{},'ch':{}}); s.gl[name]=p; return p
         txt=s.mod.globals[name]
         m=re.search(r'(?:global|constant)\s+(.*)$',txt); rest=m.group(1)
         t,i=s.tp.parse(rest); init=rest[i:].strip(); init=re.sub(r',\s*(align|section|comdat).*$','',init)
@@ -274,7 +280,10 @@ class Interp:
     def operand(s,env,t,txt):
         txt=txt.strip(); t=resolve(t)
         if txt.startswith('%'): return env[txt]
-        if txt.startswith('@'): return s.glob(txt[1:].strip('"'))
+        if txt.startswith('@'):
+            nm=txt[1:].strip('"')
+            if nm in s.mod.funcs or nm not in s.mod.globals and not nm.startswith('_ZTI'): return Ptr('@fn:'+nm,0)
+            return s.glob(nm)
         if txt in ('undef','poison'):
             return 0 if isinstance(t,IntT) else None
         if txt=='null': return Ptr(None,0)
@@ -398,8 +407,12 @@ class Interp:
             if rest=='void': return ('ret',None)
             return ('ret',s.typed(env,rest)[1])
         if op=='invoke':
-            m=re.match(r'(.*\))\s+to label %([\w.$-]+) unwind label %([\w.$-]+)$',rest)
-            s.exec(env,(res+' = ' if res else '')+'call '+m.group(1)); return ('br',m.group(2))
+            m=re.match(r'(.*\))(?:\s+#\d+)?\s+to label %([\w.$-]+) unwind label %([\w.$-]+)$',rest)
+            try:
+                s.exec(env,(res+' = ' if res else '')+'call '+m.group(1))
+            except Thrown as t:
+                s.pending_exc=t; return ('br',m.group(3))
+            return ('br',m.group(2))
         if op in ('call','tail','musttail','notail'):
             if op!='call': rest=rest.split(' ',1)[1] if rest.startswith('call') else rest
             m=re.match(r'(?:call\s+)?(?:fastcc\s+)?((?:noalias |noundef |signext |zeroext |nonnull |align \d+ |dereferenceable\(\d+\) |dereferenceable_or_null\(\d+\) )*)(.*?)\s*([@%]"[^"]*"|[@%][\w.$-]+)\((.*)\)',rest)
@@ -419,6 +432,17 @@ class Interp:
         if op=='shufflevector':
             a,b,c=split_top(rest); t=resolve(s.tp.parse(a)[0]); va=s.typed(env,a)[1] or [0]*t.n; vb=s.typed(env,b)[1] or [0]*t.n; m=s.typed(env,c)[1]
             al=list(va)+list(vb); env[res]=[al[i] for i in m]; return
+        if op=='landingpad':
+            t=s.pending_exc; clauses=re.findall(r'catch i8\* (?:bitcast \(i8\*\* @([\w.$]+) to i8\*\)|null)',rest)
+            sel=0
+            for k,c in enumerate(clauses):
+                if c=='' or EH_SUB.get(t.ty,set())|{t.ty} >= {c}: sel=TYPEID(c if c else 'null'); break
+            env[res]=[Ptr('exc:'+t.ty,0),sel]; return
+        if op=='extractvalue':
+            a=split_top(rest); v=s.typed(env,a[0])[1]; env[res]=v[int(a[1])]; return
+        if op=='insertvalue':
+            a=split_top(rest); v=list(s.typed(env,a[0])[1] or [None,None]); v[int(a[2])]=s.typed(env,a[1])[1]; env[res]=v; return
+        if op=='resume': raise s.pending_exc
         if op=='unreachable': raise Exception('unreachable')
         raise Exception('op? '+l[:100])
     def loadt(s,p,t):
@@ -432,6 +456,7 @@ class Interp:
             return
         s.mem.store(p,v,t.size())
     def intrinsic(s,fn,args,rt):
+        if fn.startswith('llvm.eh.typeid.for'): return TYPEID(args[0].obj[1:] if isinstance(args[0],Ptr) and args[0].obj else 'null')
         if fn.startswith('llvm.lifetime') or fn.startswith('llvm.prefetch') or fn.startswith('llvm.assume'): return None
         if fn.startswith('llvm.memcpy') or fn.startswith('llvm.memmove'):
             d,sr,n=args[0],args[1],args[2]; assert is_c(n)
@@ -512,6 +537,9 @@ def icmp(pred,a,b,t):
     if isinstance(a,Ptr) or isinstance(b,Ptr):
         if not isinstance(a,Ptr): a=Ptr(None,a)
         if not isinstance(b,Ptr): b=Ptr(None,b)
+        if a.obj==b.obj and not (is_c(a.off) and is_c(b.off)):
+            c=bv(a.off,64)==bv(b.off,64)
+            if pred in('eq','ne'): return z3.If(c if pred=='eq' else z3.Not(c),z3.BitVecVal(1,1),z3.BitVecVal(0,1))
         eq = a.obj==b.obj and a.off==b.off
         if pred=='eq': return int(eq)
         if pred=='ne': return int(not eq)
@@ -570,3 +598,7 @@ def explore(run, shared=None, limit=10000):
         r=run(fk); results.append((list(fk['taken']),list(fk['pc']),r)); pending+=fk['pending']; q+=fk['queries']
         assert len(results)<=limit,'fork bound exceeded (unwinding assertion)'
     return results,q
+
+EH_SUB={'_ZTISt9bad_alloc':{'_ZTISt9exception'},'_ZTISt13runtime_error':{'_ZTISt9exception'},'_ZTISt16invalid_argument':{'_ZTISt9exception'}}
+_TID={}
+def TYPEID(n): return _TID.setdefault(n,len(_TID)+1)
